@@ -32,6 +32,8 @@ def impl_eval(case):
         with warnings.catch_warnings():
             warnings.simplefilter("ignore")
             man = InferenceManager(bb, "c-inference")
+            if case.get("warmup") and case["queries"]:
+                man.inference(core.make_queries(names, answers.keyed(case["queries"][:1])))
             df = man.inference(core.make_queries(names, answers.keyed(case["queries"])))
         out["answers"] = [bool(x) for x in df["result"]]
         out["vMin"] = {str(k): sorted(sorted(x) for x in v) for k, v in man.epistemic_state["vMin"].items()}
@@ -189,7 +191,7 @@ def shrink(fail, budget=20):
 
 def gen(ctx, count):
     rng = ctx.rng
-    cases = answers.gen_cases(ctx, count, (1, 4), (1, 5), [False], ties=0.35, q_per=6, consts=0.1)
+    cases = answers.gen_cases(ctx, count, (1, 4), (1, 5), [False], ties=0.35, q_per=6, consts=0.1, conj=0.2)
     out = []
     for c in cases:
         c = {k: v for k, v in c.items() if not k.startswith("_")}
@@ -215,6 +217,7 @@ def gen(ctx, count):
         if keys is not None:
             c["base"] = [[kk, b, a] for kk, (_, b, a) in zip(keys, c["base"])]
             c["rekeyed"] = True
+        c["warmup"] = rng.random() < 0.4     # the batch is then the second call on its manager
         out.append(c)
     return out
 
